@@ -231,3 +231,13 @@ def run(ck, prog):
     ck.ob("R11.3", "publish-under-snapshot", in_task and owns,
           "publish_diagnostics runs inside the spawned closure that owns the ServerSnapshot",
           msg="publishing no longer happens inside the task that owns the snapshot: the ordering argument is lost")
+
+    # shared with C12 (same defect seen from here): the editor's text is recorded before anything re-reads files
+    from .c12 import overlay_tables, overlay_before_reread, SERVER_SET as _SS
+    from ..callgraph import callgraph as _cgf
+    _cg = _cgf(prog)
+    _sb = prog.body(_SS)
+    ck.anchor(_sb is not None, "Server::set_file_content not found")
+    _ri, _ow = overlay_tables(prog, _cg)
+    ck.rule("R11.6", "diagnostics are computed from the text the editor sent: it is in the open-document table before the include walk re-reads files")
+    overlay_before_reread(ck, prog, _cg, _sb, _ow, _ri, "R11.6")
